@@ -50,6 +50,9 @@ CHECKS = {
  "C16": dict(level="exploration", tech="parallel storm on the real server under the Go race detector with seeded yield injection at storage calls and lock boundaries; monitors: no-progress watchdog with goroutine dump (deadlock), race-detector log scan, per-goroutine lock-order / re-entrancy recorder (verif-tagged hook), request-error classifier, C04's offline log oracle and convergence of the surviving replicas",
    text="5..12 goroutine clients x 1..3 documents run seeded mixes of Attach, PushPull (edits, empty, push-only), WatchDocument streams opened and cancelled, Detach + re-attach and Deactivation with documents attached (=> ClusterService.DetachDocument), while background goroutines run CompactDocument (normal/forced), the housekeeping compaction pass and BuildInternalDocForServerSeq, with the server's own snapshotting (threshold 3..10). Oracle: requests keep completing (30 s without any completion while some are outstanding = deadlock, parked goroutines listed), race detector silent, locks acquired in the order doc -> doc-pull -> doc-attachment -> doc-push and never re-entered, only protocol-allowed errors, C04 log oracle per uncompacted document, replicas whose closing syncs succeed converge.",
    note="memdb, single node; schedules are not replayable exactly (the replay command re-runs the same seeded workload); documents that were compacted are checked for convergence only."),
+ "C17": dict(level="exploration", tech="tick-stamped event log of Subscribe/Unsubscribe/Publish/receive on a real pubsub.PubSub driven by subscriber and publisher goroutines (healthy, slow and stalled readers, early and late unsubscribes, bursts) under the race detector, offline checker 'a notification of X follows every publish of X on every subscription that was established before and stays long enough'; leak and own-event checks; plus WatchDocument streams on the live server against pushes",
+   text="2..4 subscribers and 1..3 publishers on one document key; every call and receive is stamped from one atomic counter. For every publish and every healthy/slow subscription whose Subscribe returned before the publish call and whose Unsubscribe starts >= 4 s later, a DocChanged of that publisher must be received with a later tick or the channel be closed; ClientIDs() empty after all unsubscribed; no own events; no panic (send on closed channel kills the worker => reported by the parent). On the live server a WatchDocument stream must deliver a DOCUMENT_CHANGED of the pusher after each PushPull call within 5 s.",
+   note="delivery bounds are wall clock (40-50 flush windows); stalled readers are pruned after 3 failed sends (pubsub.SetDefaultMaxConsecutivePublishFailures(3), as upstream's tests do)."),
  "C18": dict(level="exploration", tech="round-trip monitor on documents reached through generated histories and on generated YSON literals: export -> text -> parse -> text (stable), SetYSON into a new document -> export (equal), canonical content of the rebuilt document through a view that bypasses the exporter, and the rebuilt document's changes through the wire codec into a third document",
    text="Subject+peer histories over the full generator alphabet with scar steps (concurrent edits, GC, snapshot round trip), styles and style removal, non-BMP characters, nested containers, counters, plus values real documents hold (punctuation, the exporter's own keywords, {\"type\":\"paragraph\"} objects, control characters, 64-bit extremes); at sampled points the compaction/revision round trip is performed. Literal family: random YSON values of every type and nesting are marshalled, parsed, re-marshalled, set into a document and exported again.",
    note="in-process; packs.Compact's rebuild-compare on the live server is exercised on every compaction of C10; dedup counters that already counted are compared up to the rebuilt document only (F-DEDUP-HLL-OPS, pinned witness)."),
